@@ -437,8 +437,30 @@ def recheck (useTR : Bool) (s : Sheet) : Status × Sheet :=
     | .error e => (e, { s with rows := rows })
     | .ok rows' => (.ok, { s with rows := rows' })
 
+/-- the coordinate moves and leaves the worksheet (`exceeds` of `checkAdjustRangeLimit`) -/
+def exceeds (dir : Dir) (num off p : Int) : Bool :=
+  decide (p ≥ num ∧ p + off > (match dir with | .rows => maxRows | .cols => maxCols))
+
+def axisStart (dir : Dir) (q : Rect) : Int := match dir with | .rows => q.y1 | .cols => q.x1
+def axisEnd (dir : Dir) (q : Rect) : Int := match dir with | .rows => q.y2 | .cols => q.x2
+
+/-- `checkAdjustRangeLimit`: read-only check, made before anything moves, that an insertion pushes no
+range-anchored object beyond the last row/column: the *start* of every sqref range (its end is cut at the
+limit), both ends of merged cells, auto filter and tables, the cell of every hyperlink. References that
+do not parse are left to the adjusters. -/
+def rangeLimitHit (s : Sheet) (dir : Dir) (num off : Int) : Bool :=
+  decide (off > 0) &&
+  ((s.cfs ++ s.dvs).any (fun it => it.rects.any fun q => exceeds dir num off (axisStart dir q)) ||
+   (s.merges.filterMap id ++ (match s.filter with | some (some q) => [q] | _ => []) ++
+      s.tables.filterMap (·.rect)).any
+        (fun q => exceeds dir num off (axisStart dir q) || exceeds dir num off (axisEnd dir q)) ||
+   s.links.any (fun l => match l.pos with
+      | some p => exceeds dir num off (match dir with | .rows => p.2 | .cols => p.1)
+      | none => false))
+
 /-- `adjustHelper` -/
 def adjustHelperG (useTR : Bool) (s : Sheet) (dir : Dir) (num off : Int) : Status × Sheet :=
+  if Facts.C06.rangeCheckFirst && rangeLimitHit s dir num off then (.err, s) else
   match adjustDims s dir num off with
   | none => (.err, s)
   | some s1 =>
